@@ -20,14 +20,14 @@ from ..core import Report, MachineryError
 CONFIGS = {
     "quick": [("Scopes_fn_q.cfg", 800), ("Scopes_pass_q.cfg", 450),
               ("Scopes_blk_q.cfg", 650), ("Scopes_ord_q.cfg", 350),
-              ("Scopes_isa_q.cfg", 200)],
+              ("Scopes_isa_q.cfg", 200), ("Scopes_loose_q.cfg", 400)],
     "thorough": [("Scopes_fn_t.cfg", 9000), ("Scopes_fn2_t.cfg", 8000),
                  ("Scopes_blk_t.cfg", 7000), ("Scopes_isa_t.cfg", 5000),
                  ("Scopes_pass_t.cfg", 5000), ("Scopes_ord_t.cfg", 4000),
-                 ("Scopes_blk2_t.cfg", 3000)],
+                 ("Scopes_blk2_t.cfg", 3000), ("Scopes_loose_t.cfg", 5000)],
 }
 GEN_TIMEOUT = {"quick": 300, "thorough": 1500}
-GEN_PARALLEL = {"quick": 5, "thorough": 7}
+GEN_PARALLEL = {"quick": 6, "thorough": 8}
 GEN_WORKERS = {"quick": 3, "thorough": 3}
 
 
